@@ -30,6 +30,12 @@ pub enum Op {
     SubDrop,
     /// `loop { block_on(sub.next()) }` until None; the thread first gives up its owner handles
     BlockUntilEnd,
+    /// the same loop driven by the thread's own persistent waker (park / unpark): every poll of the
+    /// task presents the *same* waker, as an executor does
+    BlockUntilEndSame,
+    /// poll `next()` once with the thread's persistent waker; if Pending, park until woken; then
+    /// take the value with `next_now()` (the pending `next()` is abandoned)
+    WaitThenNextNow,
     Yield,
 }
 
@@ -97,6 +103,29 @@ pub fn gen_program(prop: &str, seed: u64, index: u64) -> Program {
         _ => Op::Get,
     };
     match prop {
+        "C04" if g.chance(1, 3) => {
+            // shape A inside the C04 family: writers and readers that block, with persistent wakers
+            let mut threads = Vec::new();
+            for _ in 0..1 + g.below(2) {
+                let k = 1 + g.below(3);
+                let ops = (0..k).map(|_| writer_op(&mut g, &mut val)).collect();
+                threads.push(ThreadSpec { owners: 1, weak: false, sub: None, ops });
+            }
+            for _ in 0..1 + g.below(2) {
+                let mut ops = Vec::new();
+                for _ in 0..g.below(3) {
+                    ops.push(match g.below(5) {
+                        0 | 1 => Op::WaitThenNextNow,
+                        2 => Op::SubNextNow,
+                        3 => Op::PollOnce,
+                        _ => Op::SubGet,
+                    });
+                }
+                ops.push(if g.chance(1, 2) { Op::BlockUntilEndSame } else { Op::BlockUntilEnd });
+                threads.push(ThreadSpec { owners: 0, weak: false, sub: Some(g.chance(1, 3)), ops });
+            }
+            Program { unique: false, initial: 1, collect: false, threads }
+        }
         "C04" => {
             let n = 2 + g.below(3);
             let mut threads = Vec::new();
@@ -154,7 +183,10 @@ pub fn gen_program(prop: &str, seed: u64, index: u64) -> Program {
                 if g.chance(1, 4) {
                     ops.push(Op::SubClone);
                 }
-                ops.push(Op::BlockUntilEnd);
+                if g.chance(1, 3) {
+                    ops.push(Op::WaitThenNextNow);
+                }
+                ops.push(if g.chance(1, 2) { Op::BlockUntilEndSame } else { Op::BlockUntilEnd });
                 threads.push(ThreadSpec { owners: 0, weak: false, sub: Some(g.chance(1, 3)), ops });
             }
             Program { unique, initial: 1, collect: false, threads }
